@@ -28,6 +28,15 @@ CLAIMED = {
          "witness shipped_single_row_accepted for the repaired defect F11; the model decides accept/reject and the returned values BITWISE against the real classes "
          "on random domains and k-grid relations incl. perturbations straddling the allclose threshold, both file layouts, single-row/single-value files.",
          "4 C12", "Lean 4 proof (decision logic stated outright) + bit-exact differential correspondence"),
+ 'C01': ("Lean theorems about a statement-for-statement model of System.createPRISM / PRISM.cost / solve (Model/Prism.lean), for EVERY x (hence every returned root; no convergence assumption), "
+         "every rank, grid length, closure/potential/omega mix: prism_equation_of_cost (the arrays left by cost satisfy H = Omega C (Omega + H) exactly at every wavenumber where the external inverse "
+         "inverted 1 - Omega C; kernel-checked matrix algebra), closure_relation_of_cost (stored c(r) = the pair's own closure of gamma_in, gamma_out = h - c via the DST inverse theorem and linearity, "
+         "y = r(gamma_out - gamma_in)), closure_residual_bound (|c - closure(h-c)| <= K |y|/r for the closure's local Lipschitz constant K) with slope_core / slope_py (equality) / slope_msa (0) / "
+         "slope_hnc (mean-value bound), cost_total (no evaluation raises on a well-formed object), cost_overwrites / cost_trace_last / solve_leaves_returned_root (whatever the root finder evaluated before, "
+         "the state after solve is cost(x_last) then totalCorr -> real; 'last evaluated = returned' is the one oracle assumption, sampled for six scipy methods), invOn_satisfiable (non-vacuity). "
+         "The model runs in the driver (Gauss-Jordan for inv) and is compared with createPRISM wiring, cost(x) and the post-solve state of the real code; PRISM-equation and closure residuals are "
+         "evaluated on the implementation from public attributes only.",
+         "4 C01", "Lean 4 proof (matrix algebra, DST inverse, mean-value theorem, induction over evaluation traces) + differential correspondence"),
  'C07': ("Lean theorems about the Domain model, for EVERY length N >= 1, every non-zero spacing, every finite dr/dk/length setter history and every array: "
          "construct_ok_iff, reachable_fresh (induction over histories: the state equals the fresh Domain(length, dr) and dk*dr*length = pi), grid_size/grid_r/grid_k, "
          "toFourier_linear, toReal_linear, toReal_toFourier and toFourier_toReal (from the kernel-checked DST orthogonality relations: dst3(dst2 x) = dst2(dst3 x) = 2N x), "
